@@ -92,7 +92,12 @@ def batcher_forms(seed, count, out, drv):
         cases.append((cfg, ins, plan))
     answers = drv.ask([B.model_line(*c) for c in cases])
     for (cfg, ins, plan), ans in zip(cases, answers):
-        tie, mev, mpend = B.parse_model(ans)
+        try:
+            tie, mev, mpend = B.parse_model(ans)
+        except B.ModelOutOfFuel as e:
+            out.diffs.append({'case': {'part': 'batcher-forms', 'cfg': cfg, 'ins': ins, 'plan': plan}, 'impl': None,
+                              'model': str(e), 'where': 'the batcher machine ran out of fuel on this program'})
+            continue
         if tie:
             out.count('ties-not-judged-against-the-model')     # the forms are still compared with each other
         got = {}
@@ -288,7 +293,12 @@ def per_loop(seed, count, out, drv):
                 run_one(k)
         answers = drv.ask([B.model_line(cfg, ins, plan) for ins, plan in progs])
         for k, ans in enumerate(answers):
-            tie, mev, _ = B.parse_model(ans)
+            try:
+                tie, mev, _ = B.parse_model(ans)
+            except B.ModelOutOfFuel as e:
+                out.diffs.append({'case': dict(case, loop=k), 'impl': None, 'model': str(e),
+                                  'where': 'the batcher machine ran out of fuel on this program'})
+                continue
             if tie:
                 continue
             out.traces_validated += 1
